@@ -1,0 +1,294 @@
+//! Verification hooks (only compiled with `--cfg rsdd_verif`).
+//!
+//! A thread-local control block lets an external deterministic simulator
+//!  * override tuning knobs (initial unique-table / lossy-cache capacity),
+//!  * fire cooperative fault points ("buggify"): legal-but-unusual events such
+//!    as a memo lookup that reports a miss or a table that grows early,
+//!  * count how often rare branches were reached ("probes").
+//!
+//! Nothing here is active unless the simulator arms it on the current thread;
+//! with the cfg flag off this module does not exist.
+
+use std::cell::RefCell;
+
+pub use crate::backing_store::{BackedRobinhoodTable, UniqueTable};
+
+/// Cooperative fault points.
+#[derive(Clone, Copy, Debug, PartialEq, Eq)]
+#[repr(u8)]
+pub enum Site {
+    /// BDD/SDD ITE cache lookup reports a miss
+    IteCacheForget = 0,
+    /// compressed-SDD apply cache lookup reports a miss
+    SddAppCacheForget = 1,
+    /// semantic-SDD apply cache lookup reports a miss
+    SemAppCacheForget = 2,
+    /// unique table grows before this insertion
+    TableGrowNow = 3,
+    /// lossy cache grows before this insertion
+    LruGrowNow = 4,
+    /// per-call conditioning memo reports a miss
+    CondMemoForget = 5,
+    /// top-down component cache reports a miss
+    TopDownCacheForget = 6,
+}
+pub const NUM_SITES: usize = 7;
+pub const SITE_NAMES: [&str; NUM_SITES] = [
+    "ite-cache-forget",
+    "sdd-app-cache-forget",
+    "sem-app-cache-forget",
+    "table-grow-now",
+    "lru-grow-now",
+    "cond-memo-forget",
+    "topdown-cache-forget",
+];
+
+/// "this rare condition was hit" counters
+#[derive(Clone, Copy, Debug, PartialEq, Eq)]
+#[repr(u8)]
+pub enum Probe {
+    TableHit = 0,
+    TableInsertEmpty,
+    TableInsertDisplace,
+    TableWrapAround,
+    TableGrow,
+    TablePropagateSwap,
+    LruHit,
+    LruMissEmpty,
+    LruMissOtherKey,
+    LruOverwrite,
+    LruGrow,
+    IteConst,
+    IteChoice,
+    IteComplChoice,
+    IteIntroConstFEqH,
+    IteIntroConstFEqNegH,
+    IteIntroConstFEqNegG,
+    IteReorder1,
+    IteReorder2,
+    IteReorder3,
+    IteReorder4,
+    IteReorder5,
+    IteStd1,
+    IteStd2,
+    IteStd3,
+    IteStd4,
+    BddIteCacheHit,
+    BddIteReduce,
+    BddIteNewNode,
+    BddCondMemoHit,
+    BddCondUnchanged,
+    BddCondNewNode,
+    BddCondReduce,
+    BddGetOrInsertCompl,
+    SddAndCartesian,
+    SddAndSubDesc,
+    SddAndPrimeDesc,
+    SddAndIndep,
+    SddAndIndepRightLinear,
+    SddAppCacheHit,
+    SddEqualPrimeShortcut,
+    SddImplicationBreak,
+    SddTrimTrueExit,
+    SddUniqueOrBdd,
+    SddUniqueOrNegNormalise,
+    SddUniqueBddNegNormalise,
+    SddCompressMerge,
+    SddCanonBaseCase,
+    SddIteCacheHit,
+    UpAlreadyConsistent,
+    UpAlreadyInconsistent,
+    UpClauseSatisfied,
+    UpConflict,
+    UpUnitFound,
+    UpWatchMoved,
+    UpWatchMovedSecondChoice,
+    SatHashSubsumed,
+    SatHashShrunk,
+    TopDownCacheHit,
+    TopDownImplied,
+    DnnfCondFlip,
+    SemNodeFoundByHash,
+    SemNodeFoundByNegHash,
+    ScratchClearShortCircuit,
+}
+pub const NUM_PROBES: usize = Probe::ScratchClearShortCircuit as usize + 1;
+
+#[derive(Clone, Debug, Default)]
+pub struct Config {
+    /// initial capacity of every unique table created while armed (None = shipped)
+    pub table_capacity: Option<usize>,
+    /// initial capacity (power of two exponent) of every lossy ITE cache (None = shipped)
+    pub lru_capacity_pow: Option<usize>,
+    /// random mode: seed and per-site probability numerator out of 256 (0 = site off)
+    pub random: Option<(u64, [u16; NUM_SITES])>,
+    /// scripted mode: fire exactly at these (site, n-th visit of that site) points
+    pub script: Vec<(u8, u64)>,
+}
+
+#[derive(Clone, Debug, Default)]
+pub struct Report {
+    /// (site, n-th visit) of every fault point that fired, in order
+    pub fired: Vec<(u8, u64)>,
+    pub visits: [u64; NUM_SITES],
+    pub probes: Vec<u64>,
+}
+
+struct Ctl {
+    armed: bool,
+    table_capacity: Option<usize>,
+    lru_capacity_pow: Option<usize>,
+    rng: u64,
+    rates: [u16; NUM_SITES],
+    random: bool,
+    script: Vec<(u8, u64)>,
+    fired: Vec<(u8, u64)>,
+    visits: [u64; NUM_SITES],
+    probes: [u64; NUM_PROBES],
+}
+
+thread_local! {
+    static CTL: RefCell<Ctl> = const { RefCell::new(Ctl {
+        armed: false,
+        table_capacity: None,
+        lru_capacity_pow: None,
+        rng: 0,
+        rates: [0; NUM_SITES],
+        random: false,
+        script: Vec::new(),
+        fired: Vec::new(),
+        visits: [0; NUM_SITES],
+        probes: [0; NUM_PROBES],
+    }) };
+}
+
+/// Arm the hooks on the current thread.
+pub fn arm(cfg: Config) {
+    CTL.with(|c| {
+        let mut c = c.borrow_mut();
+        c.armed = true;
+        c.table_capacity = cfg.table_capacity;
+        c.lru_capacity_pow = cfg.lru_capacity_pow;
+        match cfg.random {
+            Some((seed, rates)) => {
+                c.random = true;
+                c.rng = seed;
+                c.rates = rates;
+            }
+            None => {
+                c.random = false;
+                c.rates = [0; NUM_SITES];
+            }
+        }
+        c.script = cfg.script;
+        c.fired = Vec::new();
+        c.visits = [0; NUM_SITES];
+        c.probes = [0; NUM_PROBES];
+    })
+}
+
+/// Disarm the hooks on the current thread and return what happened.
+pub fn disarm() -> Report {
+    CTL.with(|c| {
+        let mut c = c.borrow_mut();
+        c.armed = false;
+        c.table_capacity = None;
+        c.lru_capacity_pow = None;
+        c.random = false;
+        // the vectors may live in memory owned by the simulator: hand them
+        // back instead of dropping them here
+        std::mem::forget(std::mem::take(&mut c.script));
+        Report {
+            fired: std::mem::take(&mut c.fired),
+            visits: c.visits,
+            probes: c.probes.to_vec(),
+        }
+    })
+}
+
+/// Temporarily change the capacity knobs (e.g. to build a reference object
+/// with shipped settings inside an armed run).
+pub fn set_knobs(table_capacity: Option<usize>, lru_capacity_pow: Option<usize>) {
+    CTL.with(|c| {
+        let mut c = c.borrow_mut();
+        c.table_capacity = table_capacity;
+        c.lru_capacity_pow = lru_capacity_pow;
+    })
+}
+
+/// Suspend / resume fault points (probes and knobs stay as they are).
+/// Returns the previous state.
+pub fn set_faults_enabled(on: bool) -> bool {
+    CTL.with(|c| {
+        let mut c = c.borrow_mut();
+        let prev = c.armed;
+        c.armed = on;
+        prev
+    })
+}
+
+#[inline]
+pub fn knob_table_capacity() -> Option<usize> {
+    CTL.with(|c| c.borrow().table_capacity)
+}
+
+#[inline]
+pub fn knob_lru_capacity_pow() -> Option<usize> {
+    CTL.with(|c| c.borrow().lru_capacity_pow)
+}
+
+#[inline]
+fn splitmix(state: &mut u64) -> u64 {
+    *state = state.wrapping_add(0x9E37_79B9_7F4A_7C15);
+    let mut z = *state;
+    z = (z ^ (z >> 30)).wrapping_mul(0xBF58_476D_1CE4_E5B9);
+    z = (z ^ (z >> 27)).wrapping_mul(0x94D0_49BB_1331_11EB);
+    z ^ (z >> 31)
+}
+
+/// A cooperative fault point: true if the unusual-but-legal event should happen now.
+#[inline]
+pub fn buggify(site: Site) -> bool {
+    CTL.with(|c| {
+        let mut c = c.borrow_mut();
+        if !c.armed {
+            return false;
+        }
+        let s = site as usize;
+        let n = c.visits[s];
+        c.visits[s] = n + 1;
+        let fire = if c.random {
+            let rate = c.rates[s];
+            rate != 0 && (splitmix(&mut c.rng) & 0xff) < rate as u64
+        } else {
+            !c.script.is_empty() && c.script.contains(&(site as u8, n))
+        };
+        if fire {
+            c.fired.push((site as u8, n));
+        }
+        fire
+    })
+}
+
+#[inline]
+pub fn probe(p: Probe) {
+    CTL.with(|c| {
+        let mut c = c.borrow_mut();
+        c.probes[p as usize] += 1;
+    })
+}
+
+pub fn probe_name(i: usize) -> String {
+    // Debug names of the enum, by index
+    const ALL: [Probe; NUM_PROBES] = {
+        let mut a = [Probe::TableHit; NUM_PROBES];
+        let mut i = 0;
+        while i < NUM_PROBES {
+            // SAFETY: Probe is repr(u8) with contiguous discriminants 0..NUM_PROBES
+            a[i] = unsafe { std::mem::transmute::<u8, Probe>(i as u8) };
+            i += 1;
+        }
+        a
+    };
+    format!("{:?}", ALL[i])
+}
